@@ -151,13 +151,6 @@ theorem alpha_none (c : Cfg) (p : Ins) (hn : 2 ≤ c.pathNorm) :
     · rfl
   rw [alpha_eval, hX]; simp
 
-theorem samePaths_io {c : Cfg} {p q : Ins} (hq : q ∈ samePaths c p) : q.io = p.io := by
-  unfold samePaths at hq
-  simpa using (List.mem_filter.mp hq).2
-
-theorem samePaths_congr {c : Cfg} {p q : Ins} (h : q.io = p.io) : samePaths c q = samePaths c p := by
-  unfold samePaths; rw [h]
-
 /-- **the normalisation law at the level of the formula** (`'component'` + `'element'`, unit path weights): the
     coefficients of the paths into one output block, weighted by their fan-ins, add up to `(2l_out+1)·out_var` -/
 theorem sum_alpha_fanIn_element (c : Cfg) (p : Ins) (hi : c.irrepNorm = 0) (hn : c.pathNorm = 0)
@@ -237,11 +230,28 @@ example (Ex : Expectation (varOf M004.cfg)) :
     (by decide) (by decide) Ex (k := 1) (by decide)
   rw [this, if_pos (by decide)]
 
-/-- `alpha` of the two M003 paths into block 1 (`'element'`: common denominator `Σ fanIn = 2·4·1 + 2·4·2 = 24`) -/
-example : 0 < ((samePaths M003.cfg (insAt M003.cfg 1)).map (fanIn M003.cfg)).sum := by
-  have : samePaths M003.cfg (insAt M003.cfg 1) = [insAt M003.cfg 1, insAt M003.cfg 3] := rfl
+/-- `alpha` of M003's instruction 1 (`'norm'` + `'element'`; two paths into block 1, common denominator
+    `Σ fanIn = 2·4·1 + 2·4·2 = 24`, `dimFactor = 3·3`, `out_var = 1/4`): `alpha = 9·(1/4)/24` -/
+example : (alpha M003.cfg (insAt M003.cfg 1)).eval * 24 = 9 * (1 / 4) * 1 := by
+  have hs : samePaths M003.cfg (insAt M003.cfg 1) = [insAt M003.cfg 1, insAt M003.cfg 3] := rfl
+  have hsum : ((samePaths M003.cfg (insAt M003.cfg 1)).map (fanIn M003.cfg)).sum = 24 := by
+    rw [hs]; norm_num [fanIn, insAt, M003.cfg, numElements, mul1, mul2, Q.eval_mk']
+  have := alpha_element M003.cfg (insAt M003.cfg 1) rfl (by rw [hsum]; norm_num)
+  rw [hsum] at this
   rw [this]
-  norm_num [fanIn, insAt, M003.cfg, numElements, mul1, mul2, Q.eval_mk']
+  norm_num [dimFactor, insAt, M003.cfg, l1, l2, Q.eval_mk']
+
+/-- the formula-level law at M004 (`'component'` + `'element'`), output block 0 -/
+example : ((samePaths M004.cfg (insAt M004.cfg 1)).map fun q => (alpha M004.cfg q).eval * fanIn M004.cfg q).sum
+    = ((2 * lO M004.cfg (insAt M004.cfg 1) + 1 : ℕ) : ℝ) * (M004.cfg.outVar.getD (insAt M004.cfg 1).io Q.one).eval := by
+  have hs : samePaths M004.cfg (insAt M004.cfg 1) = [insAt M004.cfg 1] := rfl
+  apply sum_alpha_fanIn_element M004.cfg (insAt M004.cfg 1) rfl rfl
+  · intro q hq
+    rw [hs, List.mem_singleton] at hq
+    subst hq
+    norm_num [insAt, M004.cfg, Q.eval_mk']
+  · rw [hs]
+    norm_num [fanIn, insAt, M004.cfg, numElements, mul1, mul2, Q.eval_mk']
 
 end Examples
 
